@@ -30,9 +30,11 @@
       14 MP_REACH         `1000~14~2.1~<next-hop hex>~<NLRI list>`   (family outside AFI 1/2 × SAFI 1,2,4,128: <raw hex>)
       15 MP_UNREACH       `1000~15~2.1~<NLRI list>`
       other               `1100~99~<hex>`
-  REPORT is four words:  eor=<afi.safi|->  ann=<afi.safi/nexthop hex/NLRI joined by +|->
+  REPORT is five words:  eor=<afi.safi|->  ann=<afi.safi/nexthop hex/NLRI joined by +|->
                          wd=<afi.safi/NLRI joined by +|->  attrs=<code~value fields joined by ;|->
-    (attribute values as above, without flags; withdrawn NLRIs have labels `-`)
+                         raw=<afi.safi joined by +|->
+    (attribute values as above, without flags; withdrawn NLRIs have labels `-`; `raw` lists the
+     families of MP attributes whose routes M-Wire does not decode, i.e. which are not in ann/wd)
 -/
 import ExaModel.Model.Wire
 import ExaModel.Driver.Util
@@ -87,6 +89,16 @@ def showSem (u : UpdateSem) : String :=
 
 def showFam (f : Option (Nat × Nat)) : String :=
   match f with | some (a, s) => s!"{a}.{s}" | none => "-"
+
+/-- families of MP attributes whose NLRI field M-Wire carries as opaque bytes -/
+def rawFamilies (u : UpdateSem) : List (Nat × Nat) :=
+  u.attrs.filterMap (fun a => match a.val with
+    | .mpReachRaw afi safi _ _ => some (afi, safi)
+    | .mpUnreachRaw afi safi _ => some (afi, safi)
+    | _ => none)
+
+def showRaw (u : UpdateSem) : String :=
+  " raw=" ++ joinWith "+" ((rawFamilies u).map (fun f => s!"{f.1}.{f.2}"))
 
 def showReport (r : Report) : String :=
   "eor=" ++ showFam r.eor ++
@@ -205,7 +217,7 @@ def wireLine (ws : List String) : String :=
     match params? a4 ap xnh mx, hexBytes? h with
     | some p, some bs =>
       (match decodeUpdate p bs with
-       | .ok u => "ok " ++ showReport (report p u)
+       | .ok u => "ok " ++ showReport (report p u) ++ showRaw u
        | .error (c, s) => s!"err {c} {s}")
     | _, _ => "bad-op"
   | ["sem", a4, ap, xnh, mx, h] =>
@@ -221,7 +233,7 @@ def wireLine (ws : List String) : String :=
     | _, _ => "bad-op"
   | ["report", a4, ap, xnh, mx, w, a, n] =>
     match params? a4 ap xnh mx, sem? w a n with
-    | some p, some u => "ok " ++ showReport (report p u)
+    | some p, some u => "ok " ++ showReport (report p u) ++ showRaw u
     | _, _ => "bad-op"
   | ["roundtrip", a4, ap, xnh, mx, w, a, n] =>
     match params? a4 ap xnh mx, sem? w a n with
